@@ -33,6 +33,16 @@ S = {
  "C19-c": ("C19", "cli.get_input_string: content without its final newline is tried first, the verbatim content only as fallback", "input passed as a file ending in a newline, a grammar that accepts the content with and without it, and a constraint that tells the two readings apart"),
  "C21-c": ("C21", "solver.process_new_state: nested unsat check swaps the queue but no longer isolates self.solutions (independently written twin of C21-b)", "activate_unsat_support=True, existential tree quantifier, >= 2 complete trees produced by the nested check's last step (max_number_free_instantiations >= 2)"),
  "C22-c": ("C22", "z3_helpers.z3_solve: retry shuffle and smt.random_seed drawn from a module-level random.Random() (OS entropy)", "at least one Z3 unknown inside z3_solve and an SMT part with several models"),
+ "C01-d": ("C01", "solver.eliminate_existential_formula: after a tree insertion the original formula is re-added only if a universally quantified nonterminal is (reachable from) the inserted one", "`(forall <U> ...) and (exists <W> ...)` with <U> not reachable from <W>, where inserting a <W> brings a sibling that derives <U>; only solutions from the tree-insertion branch (later solve() calls) are wrong"),
+ "C02-d": ("C02", "solver.solve: `if self.timeout_seconds and not self.start_time` instead of the `is None` tests", "timeout_seconds=0 (TypeError on every call), or a monotonic clock reading < 1 s at the first solve() with a positive timeout (TimeoutError, then trees again)"),
+ "C12-d": ("C12", "fuzzer.GrammarFuzzer.expand_tree: nonterminal leaves with an empty children list are re-opened before expansion", "an input tree with a parser-style epsilon node (nonterminal with () children) in its already expanded part"),
+ "C14-d": ("C14", "solver.parse: one EarleyParser per nonterminal cached on the solver and shared with copies made by copy_without_queue (rebased after fix e647ac1)", "copy_without_queue(grammar=Some(G2)) where G2 defines a numeric nonterminal differently; one solver parses for it first, the other then builds a numeric value tree for it"),
+ "C16-d": ("C16", "derivation_tree.from_json: next_id is bumped past the root's id only, not past every loaded node's (rebased after fix da4bbe0)", "a tree grown top-down (descendants have higher ids than the root) is saved, loaded in a fresh interpreter, and new nodes are created there"),
+ "C17-d": ("C17", "language.SMTFormula.__getstate__ via z3_helpers.z3_sexpr: s-expression memoised by Z3 AST id, which Z3 recycles after garbage collection", "pickle formula A, let it become garbage, create formula B that inherits A's AST id, pickle B"),
+ "C18-d": ("C18", "parser.fixpoint: convergence test compares the in-place updated set with itself, so `nullable` stops after one pass", "a nonterminal that is nullable only through a nonterminal defined later in the grammar, predicted twice in one Earley column, and an input where those parts are empty"),
+ "C19-d": ("C19", "cli.parse_constraint: process-wide cache of parsed constraints keyed by the text and the *set of nonterminal names* of the grammar", "two commands in one Python process with the same constraint text and two grammars with equal nonterminal names but different rules; never visible to separate `python -m isla` processes"),
+ "C21-d": ("C21", "solver.eliminate_existential_integer_quantifiers: `if not evaluate(...).is_false()` instead of `.is_true()`: an inconclusive implication check drops the `exists int` conjunct", "Z3 answers unknown for the validity query of that implication check (is_valid), CSV / reST formalizations"),
+ "C22-d": ("C22", "solver.recompute_costs: additionally triggered when 20 s of time.monotonic() have passed", "more than 20 s pass between construction / the last recomputation and a later step, at different steps in the runs compared (slow machine, pause between solve() calls); no timeout configured"),
 }
 def main():
     det_path = os.path.join(V, "seeded", "detection.json")
